@@ -5,7 +5,7 @@ from collections import Counter
 
 import numpy as onp
 
-RULE = ("one witness graph (G_live, stochastic delays, all policies) x one initial graph state, run 6-7 times on the same AsyncGraph "
+RULE = ("one witness graph (G_live, and G_wide with chronic overruns and blocking+skip; stochastic delays, all policies) x one initial graph state, run 6-7 times on the same AsyncGraph "
         "object plus once on a fresh object: unperturbed baseline, seeded pauses at submit/task_start/task_end hooks, one starved worker "
         "(10x slower), pauses of the user thread inside start(), real-time factors {0,5,20,50}, run() vs reset()/step() driving, "
         "switch interval 1e-5, and (thorough) LINE-level yield injection; every run's record and supervisor observations are compared "
@@ -111,7 +111,9 @@ def run_case(case):
     rnd = random.Random(case["spec_seed"])
     # communication jitter up to several sender periods in half of the graphs: the FIFO clamp is then active and the order in which
     # predicted timestamps and real messages pass through a connection matters
-    spec = S.rand_live(case["spec_seed"], n_min=2, n_max=5, comm_scale=rnd.choice([0.02, 0.08, 0.15]))
+    cs = rnd.choice([0.02, 0.08, 0.15])
+    # "wide": G_wide minus G_live (chronic overruns, blocking+skip; supported since repairs 5.1-m/n), else G_live
+    spec = S.rand_wide(case["spec_seed"], n_min=2, n_max=5, comm_scale=cs) if case.get("wide") else S.rand_live(case["spec_seed"], n_min=2, n_max=5, comm_scale=cs)
     dg = S.digest(spec)
     n_steps = case.get("steps", 14)
     rtfs = [0, 0, 0, 5, 20, 50]
@@ -196,6 +198,7 @@ def run_case(case):
 def plan(tier, seed):
     n = 24 if tier == "quick" else 400
     cases = [dict(name=f"g-{i}", spec_seed=seed * 100069 + i, steps=12 if tier == "quick" else 20, timeout=420) for i in range(n)]
+    cases += [dict(name=f"w-{i}", wide=True, spec_seed=seed * 100069 + 9000 + i, steps=12 if tier == "quick" else 20, timeout=420) for i in range(6 if tier == "quick" else 100)]
     if tier == "thorough":
         cases += [dict(name=f"ly-{i}", spec_seed=seed * 100069 + 6000 + i, steps=12, line_yield=True, timeout=600) for i in range(40)]
     return cases
